@@ -18,14 +18,14 @@ def Valid (T : Table) (a b : Nat) : Prop := ∀ st st' v, inh T st a v → inh T
 /-- `μ` measures a type id; a sub-check is always about a pair with a strictly smaller `μ`-sum
 (`ChildLt`): ids themselves on an ordered table, the first-order rank on any table. -/
 def Inv (W : Nat → Nat → Prop) (μ : Nat → Nat) (asm : Asm) (m : Nat) : Prop :=
-  ∀ p ∈ asm, W p.1 p.2 ∨ m ≤ μ p.1 + μ p.2
+  ∀ p ∈ asm, W p.1 p.2.1 ∨ m ≤ μ p.1 + μ p.2.1
 
 /-- the children of a first-order type are `μ`-smaller than the type -/
 def ChildLt (T : Table) (μ : Nat → Nat) : Prop :=
   ∀ {t : Nat} {ty : Ty}, T.types[t]? = some ty → FO T t → ∀ c ∈ ty.children T, μ c < μ t
 
 /-- everything new in `asm'` is valid -/
-def Post (W : Nat → Nat → Prop) (asm asm' : Asm) : Prop := ∀ p ∈ asm', p ∈ asm ∨ W p.1 p.2
+def Post (W : Nat → Nat → Prop) (asm asm' : Asm) : Prop := ∀ p ∈ asm', p ∈ asm ∨ W p.1 p.2.1
 
 theorem Inv.mono {W : Nat → Nat → Prop} {μ : Nat → Nat} {asm : Asm} {m m' : Nat} (h : Inv W μ asm m) (hm : m' ≤ m) : Inv W μ asm m' :=
   fun p hp => (h p hp).imp id (fun h => Nat.le_trans hm h)
@@ -39,8 +39,8 @@ theorem Post.refl (W : Nat → Nat → Prop) (asm : Asm) : Post W asm asm := fun
 theorem Post.trans {W : Nat → Nat → Prop} {a b c : Asm} (h1 : Post W a b) (h2 : Post W b c) : Post W a c :=
   fun p hp => (h2 p hp).elim (h1 p) Or.inr
 
-theorem Inv.cons {W : Nat → Nat → Prop} {μ : Nat → Nat} {asm : Asm} {a b : Nat}
-    (h : Inv W μ asm (μ a + μ b + 1)) : Inv W μ ((a, b) :: asm) (μ a + μ b) := by
+theorem Inv.cons {W : Nat → Nat → Prop} {μ : Nat → Nat} {asm : Asm} {a b : Nat} {ctx : Stk}
+    (h : Inv W μ asm (μ a + μ b + 1)) : Inv W μ ((a, b, ctx) :: asm) (μ a + μ b) := by
   intro p hp
   rcases List.mem_cons.mp hp with rfl | hp
   · exact Or.inr (Nat.le_refl _)
